@@ -178,7 +178,16 @@ class TimeDelta:
     def _(cls, seconds: Decimal) -> int:
         with decimal.localcontext() as ctx:
             ctx.prec = _DECIMAL_DIGITS
-            whole_seconds, fractional_seconds = divmod(seconds, 1)
+            try:
+                whole_seconds, fractional_seconds = divmod(seconds, 1)
+            except decimal.InvalidOperation:
+                if not seconds.is_finite():
+                    raise
+                # The whole seconds have more digits than the working precision, so they are far
+                # outside the 64-bit range.
+                raise OverflowError(
+                    "The input value is out of range.\n\n" f"Requested value: {seconds}"
+                ) from None
             ticks = int(whole_seconds) * _TICKS_PER_SECOND
             ticks += round(fractional_seconds * _TICKS_PER_SECOND)
             return ticks
